@@ -271,6 +271,9 @@ structure St where
   lookups : Nat
   /-- the `cname_limit` counter of the current request -/
   cnames : Nat
+  /-- observation only (never read by the model): number of CNAME-target resolutions actually
+  started (`self.resolve(cname_query, …)` in `resolve_cnames`) -/
+  targets : Nat := 0
   deriving Inhabited
 
 def St.empty : St :=
@@ -591,10 +594,11 @@ def chaseLoop (rec : ResRec) (resp : Response) (qtype : Nat) (depth : Nat) :
     | some target =>
       if resp.answers.any fun x => x.name.eq target then chaseLoop rec resp qtype depth rs chain st
       else
+        -- the budget is charged for every target, whether its answer is cached or not
         let st := { st with cnames := st.cnames + 1 }
         if st.cnames > MAX_CNAME_LOOKUPS then (st, .error .cnameLimit)
         else
-          match rec ⟨target, qtype⟩ depth st with
+          match rec ⟨target, qtype⟩ depth { st with targets := st.targets + 1 } with
           | (st, .error e) => (st, .error e)
           | (st, .ok r') =>
             let more := r'.answers.filter (chainKeeps qtype)
